@@ -19,6 +19,8 @@ import collections, hashlib, json, os, re, time, traceback
 import numpy
 
 VERIF = os.path.dirname(os.path.dirname(os.path.abspath(__file__)))
+# PBMON_OUT redirects evidence/replays (used when a check is pointed at a scratch copy via PBMON_REPO)
+OUT = os.environ.get("PBMON_OUT") or VERIF
 MAX_SAMPLES = 6
 
 
@@ -221,7 +223,7 @@ def finish(mod, tier, seed, merged, inconclusive_reasons, wall_s, replay_mode=Fa
     known, fixed = load_known(prop)
     lines = []
     new_viol, known_seen = [], []
-    rdir = os.path.join(VERIF, "replays", prop)
+    rdir = os.path.join(OUT, "replays", prop)
     if not replay_mode and os.path.isdir(rdir):  # replays describe the latest run only
         for fn in os.listdir(rdir):
             os.unlink(os.path.join(rdir, fn))
@@ -277,8 +279,8 @@ def finish(mod, tier, seed, merged, inconclusive_reasons, wall_s, replay_mode=Fa
         "wall_s": round(wall_s, 2), "violations": len(new_viol),
     }
     if not replay_mode:
-        os.makedirs(os.path.join(VERIF, "evidence"), exist_ok=True)
-        evpath = os.path.join(VERIF, "evidence", prop + ".json")
+        os.makedirs(os.path.join(OUT, "evidence"), exist_ok=True)
+        evpath = os.path.join(OUT, "evidence", prop + ".json")
         try:
             _validate(ev)
         except Exception as e:  # schema problem is our bug: report as inconclusive
